@@ -18,22 +18,28 @@ pub fn format_move(game: &Game, mv: Move) -> String {
 
     let piece = game.board.piece_at(from).unwrap();
 
+    let mut game_after_move = game.clone();
+    game_after_move.make_move(mv);
+    let places_opponent_in_check = game_after_move.is_king_in_check();
+
     let king_start = squares::king_start(game.player);
     if piece.kind == PieceKind::King && from == king_start {
+        let check = if places_opponent_in_check {
+            san::CHECK.to_string()
+        } else {
+            String::new()
+        };
+
         let kingside_castle_dest = squares::kingside_castle_dest(game.player);
         if to == kingside_castle_dest {
-            return san::KINGSIDE_CASTLE.to_string();
+            return format!("{}{check}", san::KINGSIDE_CASTLE);
         }
 
         let queenside_castle_dest = squares::queenside_castle_dest(game.player);
         if to == queenside_castle_dest {
-            return san::QUEENSIDE_CASTLE.to_string();
+            return format!("{}{check}", san::QUEENSIDE_CASTLE);
         }
     }
-
-    let mut game_after_move = game.clone();
-    game_after_move.make_move(mv);
-    let places_opponent_in_check = game_after_move.is_king_in_check();
 
     let ambiguity_resolution_required = required_ambiguity_resolution(game, mv);
 
